@@ -358,3 +358,15 @@ def case_of(ss, ff, flow, atom, tag: str):
     node = guards.specialise(ff.node, flow, atom)
     ff2 = FuncFacts(ff.module, ff.qualname, node, ff.cls, ff.parent_func, list(ff.decorators))
     return ff2, Flow(ff2, flow.outer)
+
+
+def list_extensions(root: ast.AST):
+    """[(statement, list-expression, added-expression)] for `L += v` and `L.extend(v)` below `root` (the same for lists)."""
+    out = []
+    for n in ast.walk(root):
+        if isinstance(n, ast.AugAssign) and isinstance(n.op, ast.Add):
+            out.append((n, n.target, n.value))
+        elif isinstance(n, ast.Expr) and isinstance(n.value, ast.Call) and isinstance(n.value.func, ast.Attribute) and n.value.func.attr == "extend" \
+                and len(n.value.args) == 1 and not n.value.keywords:
+            out.append((n, n.value.func.value, n.value.args[0]))
+    return out
